@@ -706,11 +706,8 @@ func (s *storage) append(br blob.SizedRef, r io.Reader) error {
 	}
 
 	packIdx := len(s.fds) - 1
-	if s.size > s.maxFileSize {
-		if err := s.nextPack(); err != nil {
-			return err
-		}
-	}
+	// Index the blob before rolling over to the next pack file: the undo
+	// below must seek and truncate the file the blob was written to.
 	err = s.index.Set(br.Ref.String(), blobMeta{packIdx, offset, br.Size}.String())
 	if err != nil {
 		if _, seekErr := s.writer.Seek(origOffset, io.SeekStart); seekErr != nil {
@@ -720,8 +717,14 @@ func (s *storage) append(br blob.SizedRef, r io.Reader) error {
 		} else {
 			s.size = origOffset
 		}
+		return err
 	}
-	return err
+	if s.size > s.maxFileSize {
+		if err := s.nextPack(); err != nil {
+			return err
+		}
+	}
+	return nil
 }
 
 // meta fetches the metadata for the specified blob from the index.
